@@ -47,7 +47,13 @@ CONSTANTS
   ProxyPats,   \* patterns used for the proxy cases (set of rules)
   CacheKey,    \* "none" | "effective" | "raw": what a verdict memo of the broker is keyed by (see below)
   HistRule,    \* history mode: maximum length of the configured / polled rules
-  HistLen      \* history mode: number of polls processed by one context
+  HistLen,     \* history mode: number of polls processed by one context
+  AllowedAlphabet, \* characters of the broker's allowed pattern
+  PollAlphabet     \* characters of the pattern a poll carries: the rule alphabet plus an upper-case letter
+                   \* that lower-cases to a rule letter ("A") and blanks (" ", tab).  The pattern is the
+                   \* proxy's consent and the proxy enforces it byte for byte (namematcher is case- and
+                   \* blank-sensitive, see Law_case.cfg), so MustReject is computed on the RAW string:
+                   \* a broker that judges a tidied-up copy (lower-cased, trimmed) under-rejects.
 
 VARIABLES
   allowed, presumed,              \* broker configuration
@@ -78,8 +84,15 @@ bconst == <<allowed, presumed, pattern, nontls, url, p, q, h, ph>>
 
 NoPoll == [present |-> FALSE, value |-> <<"-">>]
 PollsOver(R) == {[present |-> FALSE, value |-> <<>>]} \cup {[present |-> TRUE, value |-> r] : r \in R}
-PollPatterns == PollsOver(Rules)
+(* alphabets for the configurations (a configuration file cannot write a tab) *)
+PlainAlphabet == {"^", "$", "a", "."}
+CaseBlankAlphabet == {"^", "$", "a", ".", "A", " ", "\t"}
+WideAllowedAlphabet == {"^", "$", "a", ".", "A", " "}
+
+PollPatterns == PollsOver(Strs(PollAlphabet, MaxRule))
+AllowedRules == Strs(AllowedAlphabet, MaxRule)
 HistRules == Strs(RuleAlphabet, HistRule)
+HistPolls == PollsOver(Strs(PollAlphabet, HistRule))
 
 Effective(pres, x) == IF x.present THEN x.value ELSE pres
 
@@ -94,12 +107,12 @@ BrokerIdle ==
 
 InitBroker ==
   /\ PMode = "broker"
-  /\ allowed \in Rules /\ presumed \in Rules /\ todo \in [1..1 -> PollPatterns]
+  /\ allowed \in AllowedRules /\ presumed \in Rules /\ todo \in [1..1 -> PollPatterns]
   /\ BrokerIdle
 
 InitHistory ==
   /\ PMode = "history"
-  /\ allowed \in HistRules /\ presumed \in HistRules /\ todo \in [1..HistLen -> PollsOver(HistRules)]
+  /\ allowed \in HistRules /\ presumed \in HistRules /\ todo \in [1..HistLen -> HistPolls]
   /\ BrokerIdle
 
 Arrive ==
